@@ -125,7 +125,11 @@ func compare(what string, c Case, got map[string]rebase.Enzyme) error {
 
 func check(c Case) error {
 	text := write(c)
-	got := rebase.Parse(text)
+	// the parser gets a buffer of its own, which is overwritten once it has returned (a caller re-using its read
+	// buffer): what Parse returned must not change with it
+	buf := append([]byte{}, text...)
+	got := rebase.Parse(buf)
+	vk.Scribble(buf)
 	if err := compare("Parse", c, got); err != nil {
 		return err
 	}
